@@ -230,9 +230,6 @@ theorem fillFragment_facts (S : Schema) (mk : TypeId → Built) (hmk : FillerOk 
   subst hn
   exact ⟨by rw [f3]; exact hf, f1, f2⟩
 
-theorem types_append (S : Schema) (a b : List Node) : S.types (a ++ b) = S.types a ++ S.types b := by
-  simp [Schema.types]
-
 theorem all_allowsMarks_fillers (nt : NodeType) (l : List Node) (h : ∀ n, n ∈ l → n.isText = false ∧ n.marks = []) :
     l.all (fun k => nt.allowsMarks k.marks) = true := by
   rw [List.all_eq_true]
